@@ -36,7 +36,7 @@ pub const ADDRS: [&str; 21] = [
     "user7",
 ];
 pub const VALS: [&str; 8] = ["val0", "val1", "val2", "val3", "val4", "val5", "val6", "val7"];
-pub const DENOMS: [&str; 4] = ["uatom", "ujunk", "usei", "uusd"];
+pub const DENOMS: [&str; 4] = ["uAtom", "ujunk", "usei", "uusd"];
 pub const BOND_DENOM: &str = "usei";
 
 pub const HUB: usize = 0;
